@@ -421,6 +421,13 @@ func TestC10(t *testing.T) {
 				spec.Users = append(spec.Users, sim.UserSpec{Znn: 9000, Qsr: 90000})
 			}
 		}
+		// some genesis pillars pay their rewards to another account than their owner's
+		for i := range spec.Pillars {
+			if c.Bool("c10.pillarRewardElsewhere") {
+				a := sim.UserKey(c.Pick("c10.pillarReward", len(spec.Users))).Address
+				spec.Pillars[i].Reward = &a
+			}
+		}
 		h := sim.NewHist(c, spec, opts)
 		// release-heavy intent mix
 		for _, in := range sim.DefaultIntents() {
@@ -518,6 +525,29 @@ func TestC10(t *testing.T) {
 			"produce": h.ActProduce, "produce2": h.ActProduce,
 			// cross lock windows: stake unit 600 s, fuse 12 momentums, pillar/sentinel cycles 1200+600 s
 			"skipAhead": func() { h.Produce(c.Int("skipAhead", 5, 130)) },
+			// the owner of a pillar revokes it inside (or just before / after) its revoke window
+			"timedRevoke": func() {
+				list, err := definition.GetPillarsList(h.A.Chain.GetFrontierAccountStore(types.PillarContract).Storage(), true, definition.AnyPillarType)
+				if err != nil || len(list) == 0 {
+					return
+				}
+				p := list[c.Pick("tr.idx", len(list))]
+				if h.W.Keys.ByAddr[p.StakeAddress] == nil {
+					return
+				}
+				cycle := constants.PillarEpochLockTime + constants.PillarEpochRevokeTime
+				el := (h.A.Frontier().Timestamp.Unix() - p.RegistrationTime) % cycle
+				if el < constants.PillarEpochLockTime {
+					// slots of 10 s up to the window, plus a drawn offset that can overshoot it
+					skip := int((constants.PillarEpochLockTime-el)/10) + c.Int("tr.offset", -2, 3)
+					if skip < 0 {
+						skip = 0
+					}
+					h.Produce(skip)
+				}
+				h.ActCall(p.StakeAddress, types.PillarContract, types.ZnnTokenStandard, big.NewInt(0),
+					definition.ABIPillars.PackMethodPanic(definition.RevokeMethodName, p.Name), "timed pillar.Revoke("+p.Name+")")
+			},
 			// cross height-based windows (fusion expiration, redeem delay)
 			"advance": func() {
 				for i, n := 0, c.Int("advance", 5, 25); i < n && !h.Dead; i++ {
